@@ -1,0 +1,12 @@
+//go:build verif
+
+package stream
+
+// VerifSetFiltered marks the message as holding a filtered record, the way
+// ProcessorNode does for an sdk.FilterRecord result. Used only by the
+// verification harness (/verif, property C09) to feed pre-filtered messages to
+// ProcessorNode and DestinationAckerNode; the field has no exported setter.
+func (m *Message) VerifSetFiltered(v bool) { m.filtered = v }
+
+// VerifFiltered reports the filtered flag of the message.
+func (m *Message) VerifFiltered() bool { return m.filtered }
